@@ -9,7 +9,7 @@ and counts are concrete per instance, contents symbolic: DESIGN.md 2.2).  `tier`
 """
 import subprocess
 
-ROTATE_PER_RUN = 4
+ROTATE_PER_RUN = 2
 
 
 REPO = "/repo"
@@ -135,9 +135,12 @@ PROPS["C19"] = {
         I("c19::c19_feed_k3_w141", "thorough", bounds="3 lines + widths [1,4,1]"),
         I("c19::c19_feed_k3_w1111", "thorough", bounds="3 lines + widths [1,1,1,1]"),
         I("c19::c19_feed_k2_w1211", "thorough", bounds="2 lines + widths [1,2,1,1]"),
-        I("c19::c19_lex_w11", bounds="lrlex LRNonStreamingLexer::{span_lines_str, line_col}, widths [1,1], every span"),
-        I("c19::c19_lex_w111", "thorough", bounds="lexer-level queries, widths [1,1,1]", est_gb=8),
-        I("c19::c19_lex_w121", "thorough", bounds="lexer-level queries, widths [1,2,1]", est_gb=14, mem_gb=30),
+        I("c19::c19_lex_w11", bounds="lrlex LRNonStreamingLexer::span_lines_str, widths [1,1], every span"),
+        I("c19::c19_lex_w111", bounds="span_lines_str, widths [1,1,1]"),
+        I("c19::c19_lex_w121", "thorough", bounds="span_lines_str, widths [1,2,1]", est_gb=8),
+        I("c19::c19_lexcol_w11", "thorough", bounds="lrlex LRNonStreamingLexer::line_col (lines, columns, consistency), "
+          "widths [1,1], every span", est_gb=8, mem_gb=20, timeout_s=3600),
+        I("c19::c19_lexcol_w111", "thorough", bounds="line_col, widths [1,1,1]", est_gb=16, mem_gb=30, timeout_s=7200),
         I("c19::c19_col_w11", bounds="widths [1,1]"),
         I("c19::c19_col_w111", bounds="widths [1,1,1]", est_gb=5),
         I("c19::c19_col_w121", "thorough", bounds="widths [1,2,1]", no_cover=["CR LF"], est_gb=8),
@@ -156,10 +159,10 @@ _SHAPES = _json.load(open(_os.path.join(_os.path.dirname(_os.path.abspath(__file
 # mutually dependent rules with an exit each; plus the G(3,4,3,3) maximum-cost instance that caught a
 # flaw in a repair.  Everything else of G(2,3,2,3) / G(2,4,2,3) rotates in by VERIF_SEED.
 _QUICK = {
-    "g23_a22_b2": ("min", "max", "term"),
+    "g23_a22_b2": ("min", "max"),
     "g23_a2_b20": ("path", "min", "max", "term"),
-    "g23_a21_b1": ("path", "min", "max", "term"),
-    "g24_a11_b11": ("min", "max", "term"),
+    "g23_a21_b1": ("path", "min", "max"),
+    "g24_a11_b11": ("min", "max"),
     "g34_a22_b1_c0": ("max",),
 }
 
@@ -179,7 +182,8 @@ def _c17_instances():
                            ("term", ["rule_min_costs", "rule_max_costs", "has_path"])):
             t = "quick" if kind in _QUICK.get(tag, ()) else tier
             out.append(I(f"c17::c17_{kind}_{tag}", t, bounds=b, termination=term, shape=tag, kind=kind,
-                         est_gb=6 if sh["domain"] == "g34" else 4))
+                         est_gb={"min": 2, "max": 4, "path": 5, "term": 5}[kind] + (2 if sh["domain"] == "g34" else 0),
+                         est_s={"min": 60, "max": 110, "path": 140, "term": 150}[kind]))
     # FIRST / nullable: Vob-based code, affordable only at a few small shapes (5-20 GB each): the smallest
     # (a chain of three rules ending in an empty production, one user token) in the quick tier
     for tag, b, tier, est in (
@@ -204,7 +208,7 @@ PROPS["C17"] = {
     "bounds": {
         "quick": "symbolic grammar domains G(2,3,2,3) / G(2,4,2,3): 2 user rules + start rule, 3-4 user productions of "
                  "length <= 2, 2 user tokens + EOF; four shapes every run (a22_b2, a2_b20, a21_b1, a11_b11: min / max / "
-                 "termination, reachability on two of them), the maximum-cost instance of one G(3,4,3,3) shape, plus 4 "
+                 "termination, reachability on two of them), the maximum-cost instance of one G(3,4,3,3) shape, plus 2 "
                  "further instances per run chosen by VERIF_SEED; per shape EVERY symbol slot (token or user rule), "
                  "every token cost in 1..255 and the candidate fixed point X are solver variables; unwind = derived "
                  "bound (rules + 2 rounds of each fixed-point loop); FIRST/nullable at the shape a1_b1_c0 (a chain of "
